@@ -178,6 +178,83 @@ func (g *Gen) batchPreamble() {
 	g.emit(Op{Kind: "genesis-export", KV: newKV()})
 }
 
+// discardedChange: state that lives outside the store (a memo on the keeper, a package-level cache, a per-block cache)
+// is not rolled back with a failed transaction.  One transaction, one block: a configuration change, a message that
+// READS the changed configuration (and may memoise it), a receive with a garbage attestation and a send that fails --
+// the whole transaction is discarded.  Then, still in the same block, the reader again: it must be judged by the
+// configuration that was never changed.  Then the change committed on its own and the reader once more.
+func (g *Gen) discardedChange(what string, change func(), reader func()) {
+	g.initStandard(3, 2)
+	g.hold = true
+	defer func() { g.hold = false }()
+	g.comment("discarded change: " + what)
+	reader() // warms whatever caches there are with the original configuration
+	g.beginBatch(5)
+	change()
+	reader()
+	junk := buildMessage(0, 1, 4, g.freshNonce(1), g.rand32(), g.otherRecipient(), make([]byte, 32), nil)
+	junkAtt := g.randBytes(130)
+	g.tx("ReceiveMessage", newKV().set("from", hs(g.acct[1])).set("message", hx(junk)).set("attestation", hx(junkAtt)).set("ecr", ecrEntries(junk, junkAtt)))
+	g.failingSend()
+	g.endBatch()
+	reader()
+	change()
+	reader()
+}
+
+func (g *Gen) discardedChanges() {
+	sim := g.simRate
+	g.simRate = 0
+	defer func() { g.simRate = sim }()
+	a := g.acct
+	owner, am, pauser, tc := a[0], a[1], a[2], a[3] // standardGenesis
+	signedBy := func(keys ...int) func() {
+		return func() {
+			m := buildMessage(0, 1, 4, g.freshNonce(1), g.rand32(), g.otherRecipient(), make([]byte, 32), g.randBytes(5))
+			g.tx("ReceiveMessage", g.opReceive(a[4], m, attOpts{signers: g.sortedKeys(keys)}))
+		}
+	}
+	send := func(n int) func() {
+		return func() {
+			ty, kv := g.opSend(a[4], false)
+			g.tx(ty, kv.set("body", hx(g.randBytes(n))))
+		}
+	}
+	deposit := func(amount string, dest uint32) func() {
+		return func() {
+			ty, kv := g.opDeposit(a[4], amount, false)
+			g.tx(ty, kv.set("dest", fmt.Sprint(dest)))
+		}
+	}
+	burnFrom := func(tok []byte) func() {
+		return func() { g.recvBurn(a[4], 0, g.freshNonce(0), tok, 6, attOpts{}) }
+	}
+	admin := func(ty string, kv *KV) func() { return func() { g.tx(ty, kv) } }
+	from := func(who string) *KV { return newKV().set("from", hs(who)) }
+
+	g.discardedChange("enable an attester", admin("EnableAttester", from(am).set("attester", hs(g.pubHex[3]))), signedBy(3, 0))
+	g.discardedChange("disable an attester", admin("DisableAttester", from(am).set("attester", hs(g.pubHex[2]))), signedBy(2, 0))
+	g.discardedChange("lower the threshold", admin("UpdateSignatureThreshold", from(am).set("amount", "1")), signedBy(1))
+	g.discardedChange("raise the threshold", admin("UpdateSignatureThreshold", from(am).set("amount", "3")), signedBy(0, 1))
+	g.discardedChange("pause sending", admin("PauseSendingAndReceivingMessages", from(pauser)), send(3))
+	g.discardedChange("pause burning", admin("PauseBurningAndMinting", from(pauser)), deposit("5", 0))
+	g.discardedChange("pause burning (inbound)", admin("PauseBurningAndMinting", from(pauser)), burnFrom(token(0)))
+	g.discardedChange("shrink the body size", admin("UpdateMaxMessageBodySize", from(owner).set("size", "4")), send(10))
+	g.discardedChange("link a pair", admin("LinkTokenPair", from(tc).set("domain", "0").set("token", hx(token(12))).set("localToken", hs(mintDenom))), burnFrom(token(12)))
+	g.discardedChange("unlink a pair", admin("UnlinkTokenPair", from(tc).set("domain", "0").set("token", hx(token(0))).set("localToken", hs(mintDenom))), burnFrom(token(0)))
+	g.discardedChange("add a messenger", admin("AddRemoteTokenMessenger", from(owner).set("domain", "9").set("address", hx(messengerAddr(9)))), deposit("5", 9))
+	g.discardedChange("remove a messenger", admin("RemoveRemoteTokenMessenger", from(owner).set("domain", "1")), deposit("5", 1))
+	g.discardedChange("remove a messenger (inbound)", admin("RemoveRemoteTokenMessenger", from(owner).set("domain", "0")), burnFrom(token(0)))
+	g.discardedChange("set a burn limit", admin("SetMaxBurnAmountPerMessage", from(tc).set("localToken", hs(mintDenom)).set("amount", "3")), deposit("5", 0))
+	g.discardedChange("new pauser", admin("UpdatePauser", from(owner).set("new", hs(a[5]))), admin("PauseBurningAndMinting", from(a[5])))
+	g.discardedChange("new attester manager", admin("UpdateAttesterManager", from(owner).set("new", hs(a[5]))), admin("UpdateSignatureThreshold", from(a[5]).set("amount", "3")))
+	g.discardedChange("new token controller", admin("UpdateTokenController", from(owner).set("new", hs(a[5]))), admin("SetMaxBurnAmountPerMessage", from(a[5]).set("localToken", hs(mintDenom)).set("amount", "77")))
+	g.discardedChange("new owner", func() {
+		g.tx("UpdateOwner", from(owner).set("new", hs(a[5])))
+		g.tx("AcceptOwner", from(a[5]))
+	}, admin("UpdateMaxMessageBodySize", from(a[5]).set("size", "9000")))
+}
+
 func scnBatch(g *Gen, budget int, arg string) {
 	defer func() { mintDenom = "uusdc"; g.endBatch() }()
 	first := true
@@ -194,6 +271,8 @@ func scnBatch(g *Gen, budget int, arg string) {
 		g.initStandard(nAtt, t)
 		if first {
 			g.batchPreamble()
+			g.discardedChanges()
+			g.initStandard(nAtt, t)
 			first = false
 		}
 		// random transactions of 1..4 messages, mostly valid so that a good share commits
